@@ -33,6 +33,10 @@ mod c10_svm;
 mod c12_kmeans;
 #[cfg(kani)]
 mod c07_c08_linear;
+#[cfg(kani)]
+mod c14_pca;
+#[cfg(all(kani, feature = "backends"))]
+mod c20_backends;
 
 #[cfg(kani)]
 mod playback_slot;
